@@ -76,7 +76,9 @@ async def main():
             if moment == "in_flight":
                 async def call():
                     try:
-                        res = await send_message(r, w, "tools/call", {"name": "slow"}, timeout=2.0)
+                        res = await send_message(r, w, "tools/call",
+                                                 {"name": "slow", "blob": "x" * int(case.get("payload_bytes", 0))},
+                                                 timeout=2.0)
                         pending["outcome"] = ("return", repr(res)[:120])
                     except BaseException as e:  # noqa
                         pending["outcome"] = ("raise", type(e).__name__, repr(e)[:120])
